@@ -33,6 +33,7 @@ let handle toks =
       let bs = bytes_of_hex x in
       let b = int_of_n (Comp_ext.lz4_bound (n_of_int (List.length bs))) + int_of_string delta in
       show_res (Comp_ext.lz4_compress bs (n_of_int (max b 0)))
+  | ["svarint"; n] -> "OK " ^ hex_of_bytes (Comp_ext.snappy_varint (n_of_dec n))
   | ["sbound"; n] -> Printf.sprintf "OK %d" (int_of_n (Comp_ext.snappy_bound (n_of_dec n)))
   | ["lbound"; n] -> Printf.sprintf "OK %d" (int_of_n (Comp_ext.lz4_bound (n_of_dec n)))
   | ["slen"; s] -> (match Comp_ext.snappy_get_len (bytes_of_hex s) with
